@@ -148,25 +148,28 @@ func (s *SelectStatement) ToStreamConfig() (*types.Config, string, error) {
 		// If SELECT * query, set special marker
 		if s.SelectAll {
 			simpleFields = append(simpleFields, "*")
-		} else {
-			for _, field := range otherFields {
-				fieldName := field.Expression
-				if field.Alias != "" {
-					// If has alias, use alias as field name
-					simpleFields = append(simpleFields, fieldName+":"+field.Alias)
+		}
+		// plain columns listed next to * (SELECT *, a AS x) are projected like any other
+		for _, field := range otherFields {
+			fieldName := field.Expression
+			if s.SelectAll && strings.TrimSpace(fieldName) == "*" {
+				continue
+			}
+			if field.Alias != "" {
+				// If has alias, use alias as field name
+				simpleFields = append(simpleFields, fieldName+":"+field.Alias)
+			} else {
+				// For fields without alias, check if it's a string literal
+				_, n, _, _, err := ParseAggregateTypeWithExpression(fieldName)
+				if err != nil {
+					return nil, "", err
+				}
+				if n != "" && !isScalarFunctionItem(fieldName) {
+					// If string literal, use parsed field name (remove quotes)
+					simpleFields = append(simpleFields, n)
 				} else {
-					// For fields without alias, check if it's a string literal
-					_, n, _, _, err := ParseAggregateTypeWithExpression(fieldName)
-					if err != nil {
-						return nil, "", err
-					}
-					if n != "" && !isScalarFunctionItem(fieldName) {
-						// If string literal, use parsed field name (remove quotes)
-						simpleFields = append(simpleFields, n)
-					} else {
-						// Otherwise use original expression
-						simpleFields = append(simpleFields, fieldName)
-					}
+					// Otherwise use original expression
+					simpleFields = append(simpleFields, fieldName)
 				}
 			}
 		}
